@@ -152,7 +152,7 @@ Lemma m2i_shape : forall L a0 ll lb c,
 Proof.
   induction L as [|[k v] r IH]; intros a0 ll lb c Hs He Hlb Hr H.
   - cbn [mapping_to_items_lnotab] in H. inversion H; subst.
-    repeat split; try constructor. intros _. constructor.
+    repeat split; intros; constructor.
   - cbn [LC.sorted_from] in Hs. destruct Hs as [Hk Hs].
     inversion He as [|? ? Hek He']; subst. cbn [fst] in Hek.
     destruct v as [line0|]; [|cbn [mapping_to_items_lnotab] in H; discriminate].
